@@ -247,11 +247,24 @@ static void dispatch_fam(long r, int fam, int mut)
 {
     switch (fam) {
         case GUARDED: round_on<guarded<Cell, M>, M, true, false>(r, fam, mut, true, [] { return new guarded<Cell, M>(true); }); break;
-        case GUARDED_OPT_ON: round_on<guarded_opt<Cell, M>, M, true, false>(r, fam, mut, true, [] { return new guarded_opt<Cell, M>(true, true); }); break;
-        case GUARDED_OPT_OFF: round_on<guarded_opt<Cell, M>, M, true, false>(r, fam, mut, false, [] { return new guarded_opt<Cell, M>(false, false); }); break;
+        case GUARDED_OPT_ON:
+            if (r % 2) round_on<guarded_opt<Cell, M>, M, true, false>(r, fam, mut, true, [] { return new guarded_opt<Cell, M>(true); });
+            else round_on<guarded_opt<Cell, M>, M, true, false>(r, fam, mut, true, [] { return new guarded_opt<Cell, M>(true, true); });
+            break;
+        case GUARDED_OPT_OFF:  // both constructors: flag only / flag + forwarded arguments
+            if (r % 2) round_on<guarded_opt<Cell, M>, M, true, false>(r, fam, mut, false, [] { return new guarded_opt<Cell, M>(false); });
+            else round_on<guarded_opt<Cell, M>, M, true, false>(r, fam, mut, false, [] { return new guarded_opt<Cell, M>(false, false); });
+            break;
         case SHARED: round_on<shared_guarded<Cell, M>, M, true, true>(r, fam, mut, true, [] { return new shared_guarded<Cell, M>(false); }); break;
-        case SHARED_OPT_ON: round_on<shared_guarded_opt<Cell, M>, M, true, true>(r, fam, mut, true, [] { return new shared_guarded_opt<Cell, M>(true, false); }); break;
-        case SHARED_OPT_OFF: round_on<shared_guarded_opt<Cell, M>, M, true, true>(r, fam, mut, false, [] { return new shared_guarded_opt<Cell, M>(false, false); }); break;
+        case SHARED_OPT_ON:  // default argument (locking enabled), explicit flag, flag + forwarded arguments
+            if (r % 3 == 0) round_on<shared_guarded_opt<Cell, M>, M, true, true>(r, fam, mut, true, [] { return new shared_guarded_opt<Cell, M>(); });
+            else if (r % 3 == 1) round_on<shared_guarded_opt<Cell, M>, M, true, true>(r, fam, mut, true, [] { return new shared_guarded_opt<Cell, M>(true); });
+            else round_on<shared_guarded_opt<Cell, M>, M, true, true>(r, fam, mut, true, [] { return new shared_guarded_opt<Cell, M>(true, false); });
+            break;
+        case SHARED_OPT_OFF:
+            if (r % 2) round_on<shared_guarded_opt<Cell, M>, M, true, true>(r, fam, mut, false, [] { return new shared_guarded_opt<Cell, M>(false); });
+            else round_on<shared_guarded_opt<Cell, M>, M, true, true>(r, fam, mut, false, [] { return new shared_guarded_opt<Cell, M>(false, false); });
+            break;
         case ORDERED: round_on<ordered_guarded<Cell, M>, M, false, true>(r, fam, mut, true, [] { return new ordered_guarded<Cell, M>(false); }); break;
         default: round_on<deferred_guarded<Cell, M>, M, false, true>(r, fam, mut, true, [] { return new deferred_guarded<Cell, M>(false); }); break;
     }
